@@ -41,6 +41,7 @@ type RunOutput struct {
 	WallS       float64             `json:"wall_s"`
 	ConstTables map[string][]string `json:"const_tables"`
 	FamilyChecks []string `json:"family_checks"`
+	ScanOnly     []string `json:"scan_only_functions"`
 }
 
 func main() {
@@ -186,6 +187,18 @@ func runVerify(o *runOpts) (*RunOutput, error) {
 						fs = append(fs, ld.funcs[k])
 						break
 					}
+				}
+			}
+		}
+		if len(o.scan.ReachableFrom) > 0 {
+			have := map[*ssa.Function]bool{}
+			for _, f := range fs {
+				have[f] = true
+			}
+			for _, f := range x.reachableFrom(o.scan.ReachableFrom) {
+				if !have[f] {
+					fs = append(fs, f)
+					out.ScanOnly = append(out.ScanOnly, funcKey(f))
 				}
 			}
 		}
